@@ -198,4 +198,4 @@ def check(ctx):
         explanation='The statement is a 2-safety property of the whole parser. Its mechanism is a single funnel: every recoverable finding goes through optional_error (directly or via check_version), the only reader of `strict`. Complete Kani harnesses discharge the contracts of optional_error, error and check_version (both modes, all masks, all versions). Frame conditions that need no solver are checked on the code text: `strict` is read only in optional_error, every funnel call propagates its Result with `?`, `warnings` is mutated only in optional_error. From these, "strict fails with the first lenient warning and both agree when there is none" follows by a non-interference argument that is NOT machine-checked. As a bounded stand-in for it, the public API is run strict and lenient on a corpus of defect documents and their single-byte mutations. Verus proves on the real text of find_element_in_spec_checked / check_element_conflict / check_multiplicity (unit elemcheck), against the lookup contracts that unit lookups proves, that strict mode never returns Ok for an element that is unknown or not available in the file version, for a second alternative of a choice group, or for a repeated single-occurrence element, and that the panic! in check_element_conflict is unreachable; unit valueparse does the same for values. Unit parseelem proves on the real text of parse_element (the write guard replaced by the value it guards, SHORT-NAME path bookkeeping and reference registration as block-level leaves) that in strict mode an accepted element has only children listed for the file version, no repeated single-occurrence child, no two adjacent alternatives of a choice group, a SHORT-NAME if its type is identifiable in the file version, and character data only where the type allows it -- i.e. that the checks are called for every start tag with the right arguments -- and that recursion and loop terminate. Unit attrparse proves on the real text of parse_attribute_text (lookup / validation block and required-attributes loop included) that in strict mode every accepted attribute is listed for the element type, available in the file version and has a value parse_character_data accepted for the listed spec, and that every required attribute is present. parse_arxml (the root call) is under contract in unit parseelem. Not covered: parse_file_header / parse_file_version (string layer); that the value accepted for an attribute or element is the text that was in the file (C01).',
         checker_cmd='cargo kani --harness funnel_optional_error --harness funnel_error --harness funnel_check_version; frame scan of parser.rs; vxnative api strictlenient <corpus> 1',
         trusted_base=['Kani 0.68 + CBMC 6.11', 'the non-interference argument from the funnel contracts + frame conditions to the whole-parser statement (not machine-checked)', 'syntactic frame scan (regex over code text with comments/literals masked)',
-                      'unit parseelem: the frame of parse_attribute_text / parse_character_data (strict, fileversion unchanged) is assumed and justified by the frame scan; lexer vocabulary uninterpreted; `lexer.inv() ==> measure() >= 0` (true by the definition of measure in unit lexer); the root call in parse_arxml is not under contract'])
+                      'unit parseelem: lexer vocabulary (inv, measure) uninterpreted; parse_file_header is a leaf (sets the version, `strict` unchanged: frame scan F4); the element-graph operations inside the descent are leaves'])
